@@ -167,6 +167,44 @@ func (s *slicer) load(x *ssa.UnOp) {
 		// captured variable: follow stores in the defining function and all closures
 		s.freeVarLoad(a)
 	case *ssa.FieldAddr:
+		if al, ok := a.X.(*ssa.Alloc); ok {
+			// field of a struct local: whole-struct values stored into it, or
+			// (composite literal) the stores to that very field
+			if vals, zero, simple := reachingStoresX(x, al); simple {
+				for _, v := range vals {
+					s.walk(v, -1)
+				}
+				if zero {
+					s.leaf(al, LeafConst, "zero value local")
+				}
+				return
+			}
+			n := 0
+			whole := false
+			for _, r := range referrersOf(al) {
+				switch u := r.(type) {
+				case *ssa.FieldAddr:
+					if u.Field != a.Field {
+						continue
+					}
+					for _, r2 := range referrersOf(u) {
+						if st, ok := r2.(*ssa.Store); ok && st.Addr == ssa.Value(u) {
+							n++
+							s.walk(st.Val, -1)
+						}
+					}
+				case *ssa.Store:
+					if u.Addr == ssa.Value(al) {
+						whole = true
+						s.walk(u.Val, -1)
+					}
+				}
+			}
+			if n == 0 && !whole {
+				s.leaf(al, LeafConst, "zero value field")
+			}
+			return
+		}
 		if s.o.FieldLoads {
 			s.fieldStores(a)
 			return
